@@ -83,7 +83,7 @@ for idx in order:
         elif kind == "boot":
             from suit_generator.cmd_image import ImageCreator
             ImageCreator.create_files_for_boot(input_files=op["inputs"], storage_output_directory=od,
-                                               storage_address=op["envelope_address"], config_file=None)
+                                               storage_address=op["envelope_address"], config_file=None, **({"soc": op["soc"]} if "soc" in op else {}))
         res = digest_dir(od)
     except Exception as e:
         res = {"exception": type(e).__name__}
@@ -191,7 +191,7 @@ def build_ops(ck, tmp, n):
     root = {"SUIT_Envelope_Tagged": {
         "suit-authentication-wrapper": {"SuitDigest": {"suit-digest-algorithm-id": "cose-alg-sha-256"}},
         "suit-manifest": {"suit-manifest-version": 1, "suit-manifest-sequence-number": 1,
-                          "suit-manifest-component-id": ["I", {"RFC4122_UUID": {"namespace": "nordicsemi.com", "name": "nRF54H20_sample_root"}}],
+                          "suit-manifest-component-id": ["INSTLD_MFST", {"RFC4122_UUID": {"namespace": "nordicsemi.com", "name": "nRF54H20_sample_root"}}],
                           "suit-common": {"suit-components": [["M", 2]]}}}}
     rr = interp.run_impl(interp.impl_create, root)
     if rr[0] == "ok":
@@ -199,6 +199,45 @@ def build_ops(ck, tmp, n):
         with open(pr, "wb") as fh:
             fh.write(rr[1])
         ops.append({"kind": "boot", "inputs": [pr], "envelope_address": 0x0E1E9340, "uci": 0x0E1E9340})
+    # storage images for BOTH SoCs in one interpreter: for every role whose slot size differs between the two layouts, an envelope
+    # of the default class of that role sized between the two slot sizes (it fits one SoC only) — any layout detail remembered
+    # from the first SoC shows in the second run
+    try:
+        import suit_generator.cmd_image as _img
+        import cbor2 as _cb
+        socs = {"nrf54h20": _img.EnvelopeStorageNrf54h20, "nrf9280": _img.EnvelopeStorageNrf9280}
+        for soc, cls in socs.items():
+            other = [c for s2, c in socs.items() if s2 != soc][0]
+            osz = {}
+            for ent in getattr(other, "_LAYOUT", []):
+                osz[ent["role"].name] = ent["size"]
+            made = 0
+            for ent in getattr(cls, "_LAYOUT", []):
+                role, size = ent["role"], ent["size"]
+                if osz.get(role.name, size) >= size or made >= 2:
+                    continue
+                asg = [a for a in cls._CLASS_ROLE_ASSIGNMENTS if a["role"] == role]
+                if not asg:
+                    continue
+                lo = osz[role.name]
+                for pad in range(max(0, lo - 400), size, 40):
+                    dsc = {"SUIT_Envelope_Tagged": {
+                        "suit-authentication-wrapper": {"SuitDigest": {"suit-digest-algorithm-id": "cose-alg-sha-256"}},
+                        "suit-manifest": {"suit-manifest-version": 1, "suit-manifest-sequence-number": 1, "suit-reference-uri": "u" * pad,
+                                          "suit-manifest-component-id": ["INSTLD_MFST", {"RFC4122_UUID": {"namespace": asg[0]["vendor_name"], "name": asg[0]["class_name"]}}],
+                                          "suit-common": {"suit-components": [["M", 2]]}}}}
+                    rb = interp.run_impl(interp.impl_create, dsc)
+                    if rb[0] == "ok" and lo + 40 < len(rb[1]) < size - 60:
+                        pb = os.path.join(tmp, f"sized_{soc}_{role.name}.suit")
+                        with open(pb, "wb") as fh:
+                            fh.write(rb[1])
+                        ops.append({"kind": "boot", "inputs": [pb], "envelope_address": 0x0E1E9340, "soc": soc, "designed": "soc", "twin": len(ops)})
+                        if rr[0] == "ok":
+                            ops.append({"kind": "boot", "inputs": [pr], "envelope_address": 0x0E1E9340, "soc": [s2 for s2 in socs if s2 != soc][0], "designed": "soc", "twin": len(ops)})
+                        made += 1
+                        break
+    except Exception as e:  # noqa: BLE001 - a tree without two SoCs has no such histories
+        ck.cov["two_soc_histories"] = f"not built: {type(e).__name__}: {e}"
     return ops
 
 
@@ -247,6 +286,11 @@ def run(tier, seed):
             if h == 2:
                 forms = [i for i, op in enumerate(ops) if op.get("forms")]
                 order = forms + forms[::-1] + forms[:2]      # flat before hierarchical, hierarchical before flat, yaml and json interleaved
+            socops = [i for i, op in enumerate(ops) if op.get("designed") == "soc"]
+            if h == 4 and socops:
+                order = socops[::-1] + socops            # the other SoC first, then the sized envelope; then again in the given order
+            if h == 5 and socops:
+                order = [i for i, op in enumerate(ops) if op["kind"] == "boot" and "soc" not in op] + socops[::-1] + socops[:1]
             if h % 3 == 0:
                 order = ck.rng.sample(range(n), min(n, 6))
                 order = order + order[:2]                      # an operation repeated after others ran
